@@ -26,6 +26,26 @@ def field_table(chk):
             chk.harness_error("generated code outside grammar for %s: %s" % (name, e))
             continue
         g = sm.fn.__globals__
+        # the function registered for `cls` must construct `cls` (and nothing else)
+        if g.get("__cl") is not cls:
+            other = g.get("__cl")
+            on = getattr(other, "__name__", repr(other))
+            code = (
+                "from lsprotocol import converters, types\nfrom vlib import specmodel\n"
+                "def replay():\n    S = specmodel.get(); c = converters.get_converter()\n"
+                "    names = %r\n"
+                "    for n in names:\n        j = S.sample({'kind': 'reference', 'name': n}) if n in S.structs else None\n"
+                "        if j is None: continue\n        o = c.structure(j, getattr(types, n))\n"
+                "        if type(o) is not getattr(types, n):\n            return (False, 'structure(j, %%s) on a converter that structured %%s before returned a %%s' %% (n, names[0], type(o).__name__))\n"
+                "    return (True, 'ok')\n"
+            ) % ([on, name],)
+            from vlib import leafrt
+
+            ok, detail = leafrt.run_code(code)
+            if not ok:
+                chk.violation("structuring as %s returns an instance of %s: %s" % (name, on, detail), {"kind": "python", "code": code, "site": "class function of " + name})
+            else:
+                chk.harness_error("class function registered for %s constructs %s, but this did not reproduce" % (name, on))
         for f in attrs.fields(cls):
             unresolved = _has_forward(f.type)
             match = True
